@@ -176,7 +176,7 @@ theorem syncCreateTasks_nok {j0 : JobObj} (s : Sys) (jo : JobObj) (tasks : List 
     · intro h
       simp only [Option.some.injEq, Prod.mk.injEq] at h
       obtain ⟨rfl, rfl⟩ := h
-      exact ⟨hjoN, hT0⟩
+      exact ⟨hjoN, adoptUnrecordedTasks_names s jo tasks _ hT0 (fun n hn => mem_allowed_cache hn)⟩
     · cases hreqs : computeMissingIndexesForCreation s.d jo.job (jo.job.indexes s.d) with
       | none => (try simp only); intro h; cases h
       | some reqs =>
